@@ -91,6 +91,19 @@ def gen_tree(rnd, methods, maxdepth=4, mac=True):
     return out
 
 
+def mac_plain_tree(rnd, methods):
+    """Directed: members of a Mac archive (OS type 'm') that carry NO MacBinary envelope, of every size around the 128-byte
+    envelope, for several methods.  The reader passes them through its MacBinary probe unchanged."""
+    out = [dict(kind='dir', path=b'mac/', level=2, mtime=1000000000, perms=0o40755)]
+    k = 0
+    for size in (0, 1, 127, 128, 129, 255, 256, 257, 384, 1000):
+        for meth in methods:
+            k += 1
+            out.append(dict(kind='file', path=b'mac/f%d_%d' % (size, k), level=1 + k % 3, mtime=1000000000 + k, method=meth, size=size, perms=0o100644,
+                            mac=None, force_mac_plain=True))
+    return out
+
+
 def to_members(entries, rnd, arcmod, streams):
     """entries -> list of arc.Member (and fills e['plain'] / e['stream'] for files)"""
     ms = []
@@ -115,9 +128,12 @@ def to_members(entries, rnd, arcmod, streams):
                 e['level'] = m['level']
                 continue
             kw = {}
-            if meth != '-lk7-' and lvl >= 1 and rnd.random() < 0.15:
+            size = e['size']
+            if meth != '-lk7-' and lvl >= 1 and (rnd.random() < 0.15 or e.get('force_mac_plain')):
                 kw['os_type'] = ord('m')        # a member of a Mac archive that carries no MacBinary envelope (also shorter than one)
-            x = arcmod.file_member(rnd, meth, base, size=e['size'], level=lvl, path=parent, mtime=e['mtime'], perms=e['perms'], **kw)
+                if e.get('force_mac_plain') is None and rnd.random() < 0.6:
+                    size = rnd.choice([0, 1, 127, 128, 129, 255, 256, 257, 384])     # around the size of an envelope
+            x = arcmod.file_member(rnd, meth, base, size=size, level=lvl, path=parent, mtime=e['mtime'], perms=e['perms'], **kw)
             e['plain'] = x.plain
             ms.append(x)
     return ms
